@@ -3,7 +3,7 @@ CONSTANTS
   Vals = {1, 2, 3}
   Borders = {1}
   MaxOps = 1000000
-  MaxBatch = 4
+  MaxBatch = 1000000
 INIT TraceInit
 NEXT TraceNext
 INVARIANTS Refines BaseUnchanged
